@@ -79,6 +79,11 @@ func (in *Interp) globalCell(g *ssa.Global) *Cell {
 					in.store(c, in.load(in.globalCell(fg)))
 				}
 			}
+		case path == "errors" && g.Name() == "ErrUnsupported":
+			t := in.namedType("errors", "errorString")
+			ec := in.newCell(t)
+			in.store(ec, StructV{[]Value{in.constStr("unsupported operation")}})
+			in.store(c, IfaceV{T: types.NewPointer(t), V: Ptrv{Cell: ec}})
 		case path == "time" && (g.Name() == "Local" || g.Name() == "UTC" || g.Name() == "localLoc" || g.Name() == "utcLoc"):
 			// only carried around inside time.Time; formatting is never interpreted
 		case in.zeroValueGlobalOK(elem):
